@@ -218,8 +218,15 @@ Proof. vm_compute. reflexivity. Qed.
 (* ======================================================================
    Cross-phase agreement (DKG/Agreement*.v): system semantics with a broadcast
    board per phase, honest nodes running the model functions, arbitrary bundles
-   from the other parties. Fresh DKG, regular and fast-sync mode. Resharing and
-   the Rabin DKG remain _partial (correspondence and oracles carry them).
+   from the other parties. Fresh DKG, regular and fast-sync mode. For RESHARING
+   the result function is proved at the end of this file (C11_reshare_*: key
+   preservation, share consistency, completion, reconstruction, agreement for
+   equal public views in any list order); reshare_cross_phase_partial: the
+   induction over the phases showing that the public views (dview, evicted
+   holders) of two honest NEW nodes coincide is proved for the fresh DKG only
+   (the system semantics of DKG/Agreement.v has one node list) - for resharing it
+   is carried by the correspondence and the oracles.  The Rabin DKG remains
+   _partial (executable model, correspondence and oracles).
    ====================================================================== *)
 From Coq Require Import ZArith Znumtheory List Bool Permutation.
 From Kyber Require Import Algebra.Zq Algebra.Grp DKG.PacketSet DKG.PedersenDKG DKG.PedersenProofs.
@@ -381,4 +388,182 @@ Proof.
   split; [apply fast_honest; cbn; tauto|].
   split; [apply (fast_output 0); cbn; tauto|].
   apply fast_qual.
+Qed.
+
+(* ================================================================== *)
+(* RESHARING (computeResharingResult = compute_reshare_result; proofs in
+   theories/DKG/ReshareProofs.v).  [used c s]: the dealers the result is
+   interpolated over - the oldT LOWEST indices among the dealers whose row
+   holds no complaint, whatever the order of Config.OldNodes; [pub_of] /
+   [share_of]: the public polynomial / share stored for a dealer; [index_ok q i]:
+   0 <= i < q-1 and i+1 < 2^32 (x-coordinates i+1 non-zero and distinct). *)
+From Coq Require Import Lia.
+From Kyber Require Import DKG.ReshareProofs.
+
+(* (R1) key preservation.  Fold = the public polynomial of the previous sharing
+   (fewer than oldT+1 coefficients).  If the constant commitment of every used
+   dealer's polynomial is that dealer's old public share Fold(x_i), then the
+   constant term of the new commitment polynomial is Fold_0: the distributed
+   public key is unchanged, for ANY other coefficients of the dealers'
+   polynomials. *)
+Theorem C11_reshare_key_preserved :
+  forall q, prime q -> forall (c : cfg q) s r (Fold : list (zq q)),
+    compute_reshare_result q c s = Some r ->
+    0 < c_newT c -> (length Fold <= Z.to_nat (c_oldT c))%nat ->
+    NoDup (map fst (s_d s)) ->
+    (forall e, In e (used q c s) -> index_ok q (fst e)) ->
+    (forall e, In e (used q c s) -> hd zzero (pub_of q e) = peval q Fold (xof q (fst e))) ->
+    hd zzero (res_commits r) = hd zzero Fold.
+Proof. exact reshare_key_preserved. Qed.
+Print Assumptions C11_reshare_key_preserved.
+
+(* ... and that premise is an invariant of a run: in a resharing a node stores
+   a dealer's share only after checking the dealer's constant commitment
+   against the old public polynomial it was configured with (c_oldpub), in
+   ProcessDeals and in ProcessJustifications alike *)
+Theorem C11_reshare_const_term_kept_by_deals :
+  forall q (c : cfg q), c_reshare c = true -> forall bs s,
+    Forall (deal_inv_c q c) (s_d s) -> Forall (deal_inv_c q c) (s_d (fold_left (deal_fold q c) bs s)).
+Proof. exact deals_keep_const. Qed.
+Print Assumptions C11_reshare_const_term_kept_by_deals.
+
+Theorem C11_reshare_const_term_kept_by_justifications :
+  forall q (c : cfg q), c_reshare c = true -> forall bs s,
+    Forall (const_ok q c) (s_d s) -> Forall (const_ok q c) (s_d (fold_left (just_fold q c) bs s)).
+Proof. exact justifs_keep_const. Qed.
+Print Assumptions C11_reshare_const_term_kept_by_justifications.
+
+Theorem C11_reshare_key_preserved_run :
+  forall q, prime q -> forall (c : cfg q) s r,
+    c_reshare c = true ->
+    compute_reshare_result q c s = Some r ->
+    0 < c_newT c -> (length (c_oldpub c) <= Z.to_nat (c_oldT c))%nat ->
+    NoDup (map fst (s_d s)) ->
+    (forall e, In e (used q c s) -> index_ok q (fst e)) ->
+    Forall (const_ok q c) (s_d s) ->
+    hd zzero (res_commits r) = hd zzero (c_oldpub c).
+Proof. exact reshare_key_preserved_run. Qed.
+Print Assumptions C11_reshare_key_preserved_run.
+
+(* (R2) share consistency.  The test `peval coeffs x == commit share` inside
+   computeResharingResult cannot fail when the stored share of every used dealer
+   is valid for its stored polynomial at this node's index (entry_ok, kept by
+   ProcessDeals / ProcessJustifications: C11_shares_valid_after_deals, ..._justifications) and the
+   polynomials have at most newT coefficients: evaluating the coefficient-wise
+   interpolation is interpolating the evaluations. *)
+Theorem C11_reshare_share_check_passes :
+  forall q, prime q -> forall (n : nat) (x : zq q) (u : list (Z * dstate q)),
+    (forall e, In e u -> (length (pub_of q e) <= n)%nat /\ commit q (share_of q e) = peval q (pub_of q e) x) ->
+    peval q (coeffs_of q n u) x = commit q (lagrange0 q (map (fun e => (fst e, share_of q e)) u)).
+Proof. exact reshare_check_passes. Qed.
+Print Assumptions C11_reshare_share_check_passes.
+
+Theorem C11_reshare_share_on_polynomial :
+  forall q (c : cfg q) s r, compute_reshare_result q c s = Some r ->
+    commit q (res_share r) = peval q (res_commits r) (xof q (c_nidx c)) /\ res_idx r = c_nidx c.
+Proof. exact reshare_share_on_polynomial. Qed.
+Print Assumptions C11_reshare_share_on_polynomial.
+
+(* completion: none of the error paths of computeResharingResult is taken when
+   at least oldT dealers are without complaint, each of them has a stored
+   polynomial (at most newT coefficients) and a valid stored share, and at least
+   Threshold new nodes qualify *)
+Theorem C11_reshare_completes :
+  forall q, prime q -> forall (c : cfg q) s,
+    let good := filter (fun e => all_true (d_row (snd e))) (s_d s) in
+    (Z.to_nat (c_oldT c) <= length good)%nat ->
+    (forall e, In e good -> exists p v, d_pub (snd e) = Some p /\ d_share (snd e) = Some v) ->
+    (forall e, In e (used q c s) -> (length (pub_of q e) <= Z.to_nat (c_newT c))%nat /\
+                                    entry_ok q (xof q (c_nidx c)) e) ->
+    c_thr c <= Z.of_nat (length (filter (qual_pred q c s) (c_new c))) ->
+    exists r, compute_reshare_result q c s = Some r.
+Proof. exact reshare_completes. Qed.
+Print Assumptions C11_reshare_completes.
+
+(* reconstruction: new nodes that completed with the same commitment polynomial
+   C - the shares of any set of them at least as large as C is long (newT)
+   interpolate (RecoverSecret) to a secret whose commitment is C_0, which is the
+   old public key by (R1) *)
+Theorem C11_reshare_new_shares_recover :
+  forall q, prime q -> forall (C : list (zq q)) (nodes : list (cfg q * st q * result q)),
+    (forall n, In n nodes -> compute_reshare_result q (fst (fst n)) (snd (fst n)) = Some (snd n) /\ res_commits (snd n) = C) ->
+    NoDup (map (fun n => res_idx (snd n)) nodes) ->
+    Forall (index_ok q) (map (fun n => res_idx (snd n)) nodes) ->
+    (length C <= length nodes)%nat ->
+    commit q (lagrange0 q (map (fun n => (res_idx (snd n), res_share (snd n))) nodes)) = hd zzero C.
+Proof. exact reshare_new_shares_recover. Qed.
+Print Assumptions C11_reshare_new_shares_recover.
+
+(* (R3) agreement, independent of list orders.  Two new nodes whose public
+   views coincide AS SETS - the same dealers with the same "row without
+   complaint" flag and the same broadcast polynomial (dview), listed in any
+   order; Config.OldNodes in any order; the same evicted holders and
+   thresholds - and who both complete output the same commitment polynomial and
+   the same QUAL (equal lists when Config.NewNodes is the same list, equal up
+   to order when it is a permutation).  The selection of the dealers sorts by
+   index, and sorting lists with distinct indices is a function of the set. *)
+Theorem C11_reshare_agreement :
+  forall q (c1 c2 : cfg q) s1 s2 r1 r2,
+    c_oldT c1 = c_oldT c2 -> c_newT c1 = c_newT c2 ->
+    Permutation (c_old c1) (c_old c2) ->
+    NoDup (map fst (s_d s1)) -> Permutation (dview q s1) (dview q s2) ->
+    (forall i, holder_evicted q s1 i = holder_evicted q s2 i) ->
+    compute_reshare_result q c1 s1 = Some r1 -> compute_reshare_result q c2 s2 = Some r2 ->
+    res_commits r1 = res_commits r2 /\
+    (c_new c1 = c_new c2 -> res_qual r1 = res_qual r2) /\
+    (Permutation (c_new c1) (c_new c2) -> Permutation (res_qual r1) (res_qual r2)).
+Proof. exact reshare_agreement. Qed.
+Print Assumptions C11_reshare_agreement.
+
+Theorem C11_reshare_selection_order_independent :
+  forall (A : Type) (l1 l2 : list (Z * A)),
+    NoDup (map fst l1) -> Permutation l1 l2 -> sort_by_index l1 = sort_by_index l2.
+Proof. exact @sort_by_index_perm_invariant. Qed.
+Print Assumptions C11_reshare_selection_order_independent.
+
+(* non-vacuity: Z_251, old sharing f = 5 + 7x + 3x^2 (oldT = 3) held by FOUR old
+   nodes (more than oldT) listed out of order, resharing to five new nodes
+   (newT = 3); node 1 and node 4 see the lists in different orders.  Both
+   complete, the dealers used are 0,1,2, the commitment polynomials are equal
+   with constant term 5 = f(0), each share lies on it. *)
+Definition rx_q : Z := 251.
+Definition rx_f (v : Z) : zq rx_q := of_Z rx_q v.
+Definition rx_old : list (Z * Z) := [(3, 103); (0, 100); (2, 102); (1, 101)].
+Definition rx_new (me : Z) : list (Z * Z) :=
+  if me =? 1 then [(4, 204); (1, 101); (0, 100); (3, 103); (2, 102)] else [(0, 100); (1, 101); (2, 102); (3, 103); (4, 204)].
+Definition rx_fold : list (zq rx_q) := map rx_f [5; 7; 3].
+Definition rx_priv (i : Z) : list (zq rx_q) :=
+  peval rx_q rx_fold (xof rx_q i) :: map rx_f [2 + 11 * i; 9 + i * i].
+Definition rx_cfg (me : Z) (old : list (Z * Z)) : cfg rx_q :=
+  mkcfg old (rx_new me) 3 3 false true 0 me false true false true 3 3 [] rx_fold.
+Definition rx_st (me : Z) (old : list (Z * Z)) : st rx_q :=
+  mkst (map (fun o => (fst o, mkd (map (fun n => (fst n, 0)) (rx_new me))
+                               (Some (peval rx_q (rx_priv (fst o)) (xof rx_q me)))
+                               (Some (commit_poly rx_q (rx_priv (fst o)))) false false)) old)
+       (map (fun n => (fst n, mkh false false)) (rx_new me)) false 3.
+Definition rx_out (me : Z) (old : list (Z * Z)) :=
+  match compute_reshare_result rx_q (rx_cfg me old) (rx_st me old) with
+  | Some r => Some (res_qual r, map val (res_commits r),
+                    zeqb (commit rx_q (res_share r)) (peval rx_q (res_commits r) (xof rx_q me)))
+  | None => None
+  end.
+
+Example C11_reshare_nonvacuous :
+  rx_out 1 rx_old = Some ([4; 1; 0; 3; 2], [5; 242; 10], true) /\
+  rx_out 4 (rev rx_old) = Some ([0; 1; 2; 3; 4], [5; 242; 10], true) /\
+  map fst (used rx_q (rx_cfg 1 rx_old) (rx_st 1 rx_old)) = [0; 1; 2].
+Proof. vm_compute. repeat split. Qed.
+
+(* ... and the premises of C11_reshare_key_preserved hold on it *)
+Example C11_reshare_nonvacuous_premises :
+  let c := rx_cfg 1 rx_old in let s := rx_st 1 rx_old in
+  prime rx_q /\ 0 < c_newT c /\ (length rx_fold <= Z.to_nat (c_oldT c))%nat /\
+  NoDup (map fst (s_d s)) /\
+  (forall e, In e (used rx_q c s) -> index_ok rx_q (fst e)) /\
+  (forall e, In e (used rx_q c s) -> hd zzero (pub_of rx_q e) = peval rx_q rx_fold (xof rx_q (fst e))).
+Proof.
+  split; [exact prime_251|]. split; [reflexivity|]. split; [cbn; auto|].
+  split; [cbn; repeat constructor; cbn; intuition discriminate|].
+  split; intros e I; vm_compute in I; repeat (destruct I as [<-|I]; [|]); try contradiction;
+    try (unfold index_ok, Kyber.Share.ShamirProofs.idx_ok; cbn; lia); vm_compute; reflexivity.
 Qed.
